@@ -208,11 +208,16 @@ def read_cgsmiles(pattern):
             # eon => end of next
             # we find the next character that starts a new residue, ends
             # a branch or ends the complete pattern
-            eon = _find_next_character(pattern, ['[', ')', '(', '}'], stop)
+            next_characters = ['[', ')', '(', '}'] + list(symbol_to_order.keys())
+            eon = _find_next_character(pattern, next_characters, stop)
             # between the expansion character and the eon character
             # is any number that corresponds to the number of times
             # (i.e. monomers) that this atom should be added
             n_mon = int(pattern[stop+1:eon])
+            # a bond order symbol after the multiplier refers to the bond
+            # between the last copy and whatever follows
+            if eon < len(pattern) and pattern[eon] in symbol_to_order:
+                bond_order = symbol_to_order[pattern[eon]]
         else:
             n_mon = 1
 
@@ -229,13 +234,18 @@ def read_cgsmiles(pattern):
             recipes[branch_anchor[-1]].append((n_mon, attributes, prev_bond_order))
         # new we add new residue as often as required
         connection = []
-        for _ in range(0, n_mon):
+        for idx in range(0, n_mon):
             mol_graph.add_node(current, **attributes)
 
             if prev_node is not None:
                 mol_graph.add_edge(prev_node, current, order=prev_bond_order)
 
-            prev_bond_order = bond_order
+            # the copies of a multiplied node are connected by the default
+            # bond; only the last copy gets the bond order that follows
+            if idx == n_mon - 1:
+                prev_bond_order = bond_order
+            else:
+                prev_bond_order = default_bond_order
 
             # here we have a double edge
             for cycle_edge in cycle_edges:
